@@ -152,10 +152,17 @@ def run_probe(case):
             fk = focus_key(h["sel"])
             fn = ovr_fn(h["ovr"], fk)
 
-            def setter(data, hid=hid, fn=fn):
-                rt.LOG.append(("dlv", hid, plain_rec(data)))
-                return fn(data)
-            p.override(setter)
+            if h["ovr"]["k"] == "iflt" and h["ovr"].get("pipe"):
+                # the condition sits in the pipeline: a declined binding emits nothing downstream
+                def log(data, hid=hid):
+                    rt.LOG.append(("dlv", hid, plain_rec(data)))
+                p.subscribe(log)
+                p.filter(lambda data, fk=fk, n=h["ovr"]["n"]: data[fk] < n).override(h["ovr"]["c"])
+            else:
+                def setter(data, hid=hid, fn=fn):
+                    rt.LOG.append(("dlv", hid, plain_rec(data)))
+                    return fn(data)
+                p.override(setter)
         elif h.get("raw"):
             p = probing(text, env=ENV, raw=True)
 
@@ -216,6 +223,8 @@ def to_events(log):
                 e = {"ev": "aug", "var": "a", "val": arg}
             elif name == "ann_c":
                 e = {"ev": "ann", "var": "c", "val": arg}
+            elif name == "raiseb":
+                e = {"ev": "raise", "val": arg}
             else:
                 e = {"ev": name, "val": arg}
             e["dlv"] = []
@@ -243,7 +252,7 @@ def run_case(case, mode):
                 st.enter_context(cm)
             try:
                 rt.res(world.f(case.get("arg", 0)))
-            except rt.ScriptErr:
+            except rt.ScriptBase:
                 rt.caught()
     except rt.BadScript:
         raise
